@@ -347,12 +347,12 @@ def main():
         audit_out["assumed_lemma_files"] = []
         for gname in spec["groups"]:
             g = vlib.load_group(gname)
-            for cf in g.get("lemmas_assumed_from", []):
-                owner = g.get("lemmas_owner", {}).get(cf)
-                ok = owner in spec["groups"] and cf in vlib.load_group(owner)["contracts"] and cf not in vlib.load_group(owner).get("lemmas_assumed_from", [])
-                audit_out["assumed_lemma_files"].append("%s: proof fns of %s assumed (external_body), proved in group %s of the same run%s" % (gname, cf, owner, "" if ok else " -- NOT PART OF THIS RUN"))
+            for lemf in g.get("lemmas_assumed_from", []):
+                owner = g.get("lemmas_owner", {}).get(lemf)
+                ok = owner in spec["groups"] and lemf in vlib.load_group(owner)["contracts"] and lemf not in vlib.load_group(owner).get("lemmas_assumed_from", [])
+                audit_out["assumed_lemma_files"].append("%s: proof fns of %s assumed (external_body), proved in group %s of the same run%s" % (gname, lemf, owner, "" if ok else " -- NOT PART OF THIS RUN"))
                 if not ok:
-                    undecided.append("%s assumes the lemmas of %s but their owner group %r is not verified in this run" % (gname, cf, owner))
+                    undecided.append("%s assumes the lemmas of %s but their owner group %r is not verified in this run" % (gname, lemf, owner))
     except Exception as e:  # noqa: BLE001
         undecided.append("assumed-contract audit failed: %r" % (e,))
     if audit_out["ensures_not_proved"]:
